@@ -196,7 +196,7 @@ class Client(base_client.BaseClient):
                 'Unexpected status code {} in server response'.format(
                     r.status_code), arg)
         try:
-            p = payload.Payload(encoded_payload=r.content.decode('utf-8'))
+            p = self._decode_payload(r.content.decode('utf-8'))
         except ValueError:
             raise exceptions.ConnectionError(
                 'Unexpected response from server') from None
@@ -484,7 +484,7 @@ class Client(base_client.BaseClient):
                 self.queue.put(None)
                 break
             try:
-                p = payload.Payload(encoded_payload=r.content.decode('utf-8'))
+                p = self._decode_payload(r.content.decode('utf-8'))
             except ValueError:
                 self.logger.warning(
                     'Unexpected packet from server, aborting')
